@@ -30,11 +30,14 @@ HasPadding(n) == Leb128Len(n) + n < 32
 SealId(scheme, pk, id) == IF "TimeLockAugPlainId" \in Deviations THEN id ELSE HashMsg(scheme, pk, id)
 
 \* BlsTimeCrypt::seal (r is the atom "r": a function of alpha and M only)
-Seal(pk, scheme, idm, n) ==
-  LET r == PAtom("r") IN
+\* (ra = name of the atom r: "r" in the model, one fresh name per ciphertext in recorded traces)
+SealR(pk, scheme, idm, n, ra) ==
+  LET r == PAtom(ra) IN
   [u |-> GScale(r, GenK),
    vk |-> PairList(<< <<Hs(TagOf(scheme), SealId(scheme, pk, idm)), GScale(r, pk)>> >>), vtam |-> "",
    wn |-> n, wtam |-> "", scheme |-> scheme]
+
+Seal(pk, scheme, idm, n) == SealR(pk, scheme, idm, n, "r")
 
 \* what the FO re-check sees after unmasking W with the right alpha
 WOutcome(n, wtam) ==
@@ -49,14 +52,15 @@ WOutcome(n, wtam) ==
     [] OTHER                 -> "other"
 
 \* TimeCryptCiphertext::decrypt + BlsTimeCrypt::unseal
-Open(c, siglabel, sig) ==
+OpenR(c, siglabel, sig, ra) ==
   LET labelok == siglabel = c.scheme
       s == IF labelok THEN sig ELSE GId                 \* mismatched variant: default (identity) point, is_valid = 0
       validsk == ~GIsId(s) /\ ~GIsId(c.u)
       alphaok == PairList(<< <<s, c.u>> >>) = c.vk /\ c.vtam = ""
       w == IF alphaok THEN WOutcome(c.wn, c.wtam) ELSE "other"
-      recheck == alphaok /\ w = "M" /\ c.u = GScale(PAtom("r"), GenK)
+      recheck == alphaok /\ w = "M" /\ c.u = GScale(PAtom(ra), GenK)
   IN IF recheck /\ labelok /\ validsk THEN "Some" ELSE "None"
+Open(c, siglabel, sig) == OpenR(c, siglabel, sig, "r")
 
 \* ------------------------------------------------------------ adversary
 COp(op, arg) == [op |-> op, arg |-> arg]
